@@ -327,3 +327,27 @@ func (e *Exec) execMapLookup(fr *Frame, st *State, x *ssa.Lookup) {
 	e.unsupported("%s: map lookup", e.name)
 	fr.vals[x] = e.freshVal("mlook", x.Type(), kindOf(x.Type()))
 }
+
+// ownMode: declared ownership of the field stored in array `name`
+// ("owned": the referent is reachable only through this field; "inherits":
+// owned/fresh whenever the containing object is).
+func (p *Prog) ownMode(arr string) string {
+	if p.ownCache == nil {
+		p.ownCache = map[string]string{}
+		for _, fd := range p.CS.Fields {
+			if fd.Mode != "owned" && fd.Mode != "inherits" {
+				continue
+			}
+			var pk *types.Package
+			if sp := p.SPkgs[fd.PkgPath]; sp != nil {
+				pk = sp.Pkg
+			}
+			T := resolveTypeIn(p, pk, fd.Type)
+			if T == nil {
+				fatalf("field declaration: unknown type %s", fd.Type)
+			}
+			p.ownCache[fieldArrName(T, fd.Field)] = fd.Mode
+		}
+	}
+	return p.ownCache[arr]
+}
